@@ -189,6 +189,28 @@ func c05Generate(c *mon.Ctx) {
 		}
 	}
 
+	// ... and sums of the SAME element given in two different representations (P + P', P - P', P + (-P)'), every pair of
+	// structured representations: a doubling test on coordinates instead of on the group element
+	for i, pv := range pool.NonInf {
+		if i%3 != 0 {
+			continue
+		}
+
+		for j, rq := range srs {
+			rp := srs[(i+5*j+1)%len(srs)]
+			npv := gen.PV{P: oracle.Neg(pv.P), Tag: "-P"}
+			a1 := mon.MkOpElemCase("add", mon.MkElemCase(pv, rp), mon.MkElemCase(pv, rq))
+			a2 := mon.MkOpElemCase("sub", mon.MkElemCase(pv, rp), mon.MkElemCase(npv, rq))
+			a3 := mon.MkOpElemCase("add", mon.MkElemCase(pv, rp), mon.MkElemCase(npv, rq))
+			dbl := mon.MkElemCase(gen.PV{P: oracle.Dbl(pv.P), Tag: "2P"}, srs[j%len(srs)])
+			o := mon.MkElemCase(gen.PV{P: oracle.Inf(), Tag: "O"}, gen.StructuredReprs(true)[j%len(gen.StructuredReprs(true))])
+			c.Structured(func() any { return &c05Case{A: a1, B: dbl, Rel: "P"} })
+			c.Structured(func() any { return &c05Case{A: a2, B: dbl, Rel: "P"} })
+			c.Structured(func() any { return &c05Case{A: a3, B: o, Rel: "P"} })
+			c.Structured(func() any { return &c05Case{A: a1, B: o, Rel: "unrelated"} })
+		}
+	}
+
 	n5, n6 := mon.MkNatElemCase(pool.All[0], 5), mon.MkNatElemCase(pool.All[0], 6)
 	c.Structured(func() any { return &c05Case{A: n5, B: n6, Rel: "P"} })
 	c.Structured(func() any { return &c05Case{A: n5, B: n5, Rel: "P"} })
